@@ -46,6 +46,10 @@ ScenC05(u) == {Plain(<<Md(MkTests(1, names))>>) : names \in SeqsOf(C05Kinds, 1, 
 SlowTc(id, t, stream) == Tc(id, "exit", 0, 3, None, "stdout", stream, "match", t, FALSE, None)
 C14Tests(p, t) == [x \in 1..3 |-> IF x = p THEN SlowTc(Ids[1][x], t, "stdout") ELSE Kind("pass", Ids[1][x])]
 C14Cram(p)     == [x \in 1..3 |-> IF x = p THEN SlowTc(Ids[1][x], None, "combined") ELSE CramKind("pass", Ids[1][x])]
+\* a slow test case whose shell ignores SIGTERM: the limits still bound it
+NoTermTc(id, t) == [SlowTc(id, t, "stdout") EXCEPT !.beh = "noterm"]
+NoTerm(u) == {Run(<<Doc("md", tfm, None, "no", <<Kind("pass", "d1t1"), NoTermTc("d1t2", t), Kind("pass", "d1t3")>>)>>, None, <<>>, <<>>, "cli", FALSE) :
+                  t \in {None, 1}, tfm \in {None, 1}} \ {Run(<<Doc("md", None, None, "no", <<Kind("pass", "d1t1"), NoTermTc("d1t2", None), Kind("pass", "d1t3")>>)>>, None, <<>>, <<>>, "cli", FALSE)}
 ScenC14(u) == {Run(<<Doc("md", tfm, None, "no", C14Tests(p, t))>>, tcli, <<>>, <<>>, "cli", FALSE) :
                  p \in 1..3, t \in {None, 1, 6}, tfm \in {None, 0, 1, 6}, tcli \in {None, 0, 1, 6}}
            \* the document limit elapses BETWEEN two commands (scrut waits 2 ticks before the second one)
@@ -121,6 +125,8 @@ ScenC20(u) == {Run(<<d1>>, None, pre, app, via, FALSE) : d1 \in MdDocsOf(1), pre
 
 \* one script per document: a command that ends the shell with a code other than the skip code (`exit 3`)
 ScriptExit(u) ==
+    \* (also with more than 4 KiB of non-ASCII output before the shell ends: the error message carries the output)
+    {Plain(<<Cram(<<Tc("d1t1", "exitscript", 3, 0, None, "bigutf8", "combined", "none", None, FALSE, None), CramKind("pass", "d1t2")>>)>>)} \cup
     {Plain(<<Cram([x \in 1..3 |-> IF x = p THEN Tc(Ids[1][x], "exitscript", 3, 0, None, "stdout", "combined", "match", None, FALSE, None)
                                    ELSE CramKind(n, Ids[1][x])])>> \o rest) : p \in 1..3, n \in {"pass", "failout"}, rest \in {<<>>, <<Md(MkTests(2, <<"pass">>))>>}}
     \cup {[Plain(<<Combined(Md([x \in 1..3 |-> IF x = p THEN Tc(Ids[1][x], "exitscript", 3, 0, None, "stdout", "stdout", "match", None, FALSE, None)
@@ -150,7 +156,7 @@ DetachedAndCut(cuts) ==
         tests \in UNION {{<<Kind("det", "d1t1"), CutTc(x, "d1t2"), Kind("pass", "d1t3")>>,
                           <<Kind(n1, "d1t1"), Kind("det", "d1t2"), CutTc(x, "d1t3")>>} : x \in cuts, n1 \in {"pass", "failout"}}}
 Scenarios == CASE Focus = "C05" -> ScenC05(0) \cup SharedAndTimeout(0) \cup DetachedAndCut({"slow", "sig_noexp", "failcode"}) \cup SharedPlain(0)
-               [] Focus = "C14" -> ScenC14(0) \cup DetachedAndCut({"slow"}) \cup LimitAndShared(0) [] Focus = "C15" -> ScenC15(0) \cup DetachedAndCut({"skip80", "slow"}) \cup C15Compat(0)
+               [] Focus = "C14" -> ScenC14(0) \cup DetachedAndCut({"slow"}) \cup LimitAndShared(0) \cup NoTerm(0) [] Focus = "C15" -> ScenC15(0) \cup DetachedAndCut({"skip80", "slow"}) \cup C15Compat(0)
                [] Focus = "C20" -> ScenC20(0) \cup SharedAndTimeout(0) \cup DetachedAndCut({"slow", "sig_noexp", "skip80", "failout"}) \cup ScriptExit(0)
 
 Init == /\ sc \in Scenarios
